@@ -12,6 +12,7 @@ VERIF = os.path.dirname(os.path.dirname(os.path.abspath(__file__)))
 REPO = os.environ.get("IXAI_REPO", "/repo")
 EVID = os.path.join(VERIF, "evidence")
 REPLAYS = os.path.join(VERIF, "replays")
+MAX_REPLAY_FILES = 40
 KNOWN = os.path.join(VERIF, "known_findings.json")
 
 
@@ -94,9 +95,12 @@ class Ctx:
     def violation(self, clause, key, detail, replay_obj=None):
         os.makedirs(os.path.join(REPLAYS, self.pid), exist_ok=True)
         fn = os.path.join(REPLAYS, self.pid, "%s-%03d.json" % (clause.replace("/", "_").replace(" ", "_"), len(self.findings)))
-        with open(fn, "w") as f:
-            json.dump(dict(property=self.pid, clause=clause, key=key, detail=detail, replay=replay_obj,
-                           tier=self.tier, seed=self.seed), f, indent=1, default=str)
+        if len(self.findings) < MAX_REPLAY_FILES:
+            with open(fn, "w") as f:
+                json.dump(dict(property=self.pid, clause=clause, key=key, detail=detail, replay=replay_obj,
+                               tier=self.tier, seed=self.seed), f, indent=1, default=str)
+        else:       # a badly broken tree produces 10^5 findings: all are counted, the first ones are kept as replay files
+            fn = self.findings[0].replay
         self.findings.append(Finding(clause, key, detail, fn))
 
     # ---- finish
